@@ -176,6 +176,16 @@ KadValues ==
   \cup [kind : {"add_provider"}, keylen : {1, 32}, peers : {1}, addrs : {0, 1, 2}, rec : {"none"}]
 BitswapValues == [blocks : {0, 1, 3}, presences : {0, 1, 2}, wants : {0, 1, 3}]
 MssValues == [kind : {"header", "na", "ls", "protocol", "protocols"}, n : {0, 1, 3}]
+\* own-encoder sweep around the boundaries of the varint size function: a protocol name of
+\* `len` bytes is written as varint(len + 1), name, '\n'
+VarintSize(v) == IF v < 128 THEN 1 ELSE IF v < 16384 THEN 2 ELSE 3
+MssNameLens == {1, 2, 126, 127, 128, 129, 16381, 16382, 16383, 16384}
+MssSweepValues == [kind : {"protocol", "protocols"}, len : MssNameLens, n : {1, 2, 3}]
+\* Message::encoded_len of the value
+MssEncodedLen(v) == IF v.kind = "protocol" THEN v.len + 1 ELSE v.n * (VarintSize(v.len + 1) + v.len + 1) + 1
+\* webrtc_encode_multistream_message refuses what does not fit one frame (prefix + body)
+MssFitsFrame(v) == VarintSize(MssEncodedLen(v)) + MssEncodedLen(v) <= MaxFrame
+MssSweepAux(v) == [enclen |-> MssEncodedLen(v), fits |-> MssFitsFrame(v)]
 IdentifyValues == [protocols : {0, 1, 3}, listen : {0, 1, 2}, observed : BOOLEAN]
 
 -----------------------------------------------------------------------------
